@@ -538,7 +538,7 @@ def task_binary(args):
         parts = []
         for i in range(rnd.randint(1, 4)):
             if rnd.random() < 0.5:
-                content = bytes(rnd.getrandbits(8) for _ in range(rnd.randint(0, maxlen)))
+                content = rnd.randbytes(rnd.randint(0, maxlen))
             else:
                 content = b"".join(rnd.choice(atoms) for _ in range(rnd.randint(0, 20)))
             if rnd.random() < 0.6:
@@ -601,17 +601,31 @@ def task_charset(args):
 
 
 def task_large(args):
-    """thorough: uploads larger than the parser's 64 KiB read buffer (incl. content that ends exactly at
-    multiples of the buffer size, CRLF runs, near-boundaries at the chunk edge)"""
-    (idx,) = args
+    """thorough: uploads larger than the parser's 64 KiB read buffer and larger than the 500 kB in-memory
+    threshold of the test encoder / the parser's spooled file (temporary files go to a private directory
+    that is removed afterwards)"""
+    seed, idx = args
+    import shutil
+    import tempfile
     L = Local()
     big = 64 * 1024
-    rnd = common.rng(0, f"c02-large-{idx}")
-    contents = [b"x" * (big + 17), CRLF * (big // 2 + 5), b"\r" * (big + 3), b"\n" * (big + 3),
-                (b"--" + B8[:-1] + CRLF) * 8000, bytes(rnd.getrandbits(8) for _ in range(big * 2 + 11))]
-    c = contents[idx % len(contents)]
-    check_parts(L, [fld("a", "v"), fil("f", c, filename="big.bin"), fld("z", "end")], B8,
-                ("sansio", "encode_parser", "encode_environ", "environ_multipart", "client_post"))
+    rnd = common.rng(seed, f"c02-large-{idx}")
+    makers = [lambda: b"x" * (big + 17), lambda: CRLF * (big // 2 + 5), lambda: b"\r" * (big + 3),
+              lambda: b"\n" * (big + 3), lambda: (b"--" + B8[:-1] + CRLF) * 8000,
+              lambda: rnd.randbytes(big * 2 + 11), lambda: rnd.randbytes(600_000),
+              lambda: (b"line " * 20 + CRLF) * 6000]
+    c = makers[idx % len(makers)]()
+    tmp = tempfile.mkdtemp(prefix="c02-")
+    old = tempfile.tempdir
+    tempfile.tempdir = tmp
+    try:
+        check_parts(L, [fld("a", "v"), fil("f", c, filename="big.bin"), fld("z", "end")], B8,
+                    ("sansio", "encode_parser", "encode_environ", "environ_multipart", "client_post"))
+        check_parts(L, [fil("f", c[:big - 200], filename="a"), fil("g", c[big - 200:], filename="b")], B8,
+                    ("encode_environ", "environ_multipart"))
+    finally:
+        tempfile.tempdir = old
+        shutil.rmtree(tmp, ignore_errors=True)
     return L.pack()
 
 
@@ -661,8 +675,8 @@ def _tasks(tier, seed):
         tasks.append(("task_urlencoded_codepoints", (lo, lo + 0x2000)))
     tasks.append(("task_charset", (tier,)))
     if th:
-        for i in range(6):
-            tasks.append(("task_large", (i,)))
+        for i in range(8):
+            tasks.append(("task_large", (seed, i)))
         for i in range(nopt):
             tasks.append(("task_lists", (i, 3, True)))
     return tasks
@@ -688,7 +702,7 @@ def _domain(tier):
         % ("U+0000..U+10FFFF" if th else "of the BMP (+ 4 blocks of astral planes)", 8 if th else 6, 5 if th else 4,
            6 if th else 4, 3 if th else 2, "U+0000..U+10FFFF" if th else "of the BMP", 32 * 150 if th else 8 * 25,
            300 if th else 40, "U+0000..U+10FFFF" if th else "of the BMP",
-           " Uploads of 64 KiB..128 KiB (x, CRLF, CR, LF runs, near-boundary lines, random bytes)." if th else ""))
+           " Uploads of 64 KiB..600 kB (x, CRLF, CR, LF runs, near-boundary lines, text lines, random bytes)." if th else ""))
 
 
 def run(tier: str, seed: int, reg=None) -> dict:
@@ -714,7 +728,7 @@ def run(tier: str, seed: int, reg=None) -> dict:
                    {"check": "environ_urlencoded", "input": common._j({"pairs": [["a b", "&="]], "args": [["", ""]]})}]
     res = col.result()
     res["skipped_out_of_domain"] = skipped
-    res["failing_checks"] = {k: len(v) for k, v in sorted(fails.items())}
+    res["failing_checks_capped_per_task"] = {k: len(v) for k, v in sorted(fails.items())}
     return res
 
 
